@@ -79,6 +79,9 @@ def gen_perm_twice(r, n):
             o2, g2, m2 = (0 if r.chance(0.7) else 1234), (0 if r.chance(0.5) else 4321), gen_mode(r)
         # k == 4: nothing changes
         ops.append(f"ex.twice owner={o1} group={g1} mode={m1:03o} owner2={o2} group2={g2} mode2={m2:03o} link={r.below(2)}")
+    # the executable is busy (held open by a writer) when the call starts, and is given away while the call is under way
+    for _ in range(max(2, n // 60)):
+        ops.append(f"ex.busy how={r.pick(['chown', 'chmod'])} after_ms={r.range(10, 120)}")
     ops.append("ex.count")
     return ops
 
@@ -151,6 +154,10 @@ def gen_exec(r, n):
         body.append(f"ex.user kind={kind} beh={r.pick(['exit0', 'exit0', 'garbage', 'empty'])}")
         body.append(f"ex.user kind={kind} beh={r.pick(['notexec', 'badformat', 'vanish'])}")
         body.append(f"ex.user kind={kind} beh={r.pick(['exit3', 'exit3out', 'killed'])}")
+    # two activities on one cmd fan at once, the first stuck in a command that ignores its deadline
+    body.append(f"ex.userpair beh={r.pick(['sleep', 'execsleep'])} first={r.pick(['fanpwm', 'fanrpm', 'fanset'])} "
+                f"second={r.pick(['fanpwm', 'fanrpm', 'fanset', 'rpmavg'])} gap_ms={r.range(50, 400)}")
+    body.append(f"ex.userpair beh={r.pick(['sleep', 'execsleep'])} first={r.pick(['fanpwm', 'fanrpm'])} second=rpmavg gap_ms={r.range(50, 400)}")
     while len(body) < n:
         k = r.below(10)
         if k < 5:
